@@ -37,6 +37,7 @@ func runC06(c *Ctx) {
 		"C06.c every erased cell takes the cursor's current background",
 		"C06.d cursor and margin contracts of the motion/positioning functions (symbolic pre/post conditions proved on the code)",
 		"C06.f scroll up/down: every row of the region receives the row n lines away when that row is in the region and is erased (margins, pen background) otherwise; rows outside are untouched (n below and at/above the region height)",
+		"C06.i insert/delete line: every row from the cursor row to the bottom margin receives the row n lines above/below when that row is in the interval and is erased otherwise, rows outside are untouched, and nothing happens with the cursor outside the region (n within and beyond the lines that remain)",
 		"C06.g print blanks, in the pen's style, exactly the columns col+1 .. min(col+w-1, right margin) a wide glyph covers, on the glyph's row",
 	}
 	c.NotDec = []string{"grid contents (graphemes, widths, styles) after each operation; SGR-to-pen mapping (C18); behaviour in the deferred-wrap column other than printing, CR and absolute positioning (exempt by the statement)"}
@@ -66,6 +67,7 @@ func runC06(c *Ctx) {
 	lap("erase")
 	c06RuleContracts(c, e, tabs)
 	c06RuleScroll(c, e, tabs)
+	c06RuleInsDel(c, e, tabs)
 	c06RulePrint(c, e)
 	lap("contracts")
 	c05Debug(c)
@@ -614,6 +616,26 @@ func c06Cases() []c06Case {
 		c06Case{rule: "C06.d", table: "c0", key: "10", name: "LF moves down one row", pre: with(inRegion, c05L(c05Row, 1, c05Bot, -1, 1)), post: []c06Post{c06Eq("row == row0+1", c05Row, 1, g0Row, -1, -1)}},
 		c06Case{rule: "C06.d", table: "c0", key: "10", name: "LF at the bottom margin keeps the row", pre: with(inRegion, c05L(c05Bot, 1, c05Row, -1)), post: []c06Post{rowSame}},
 		c06Case{rule: "C06.d", table: "c0", key: "13", name: "CR goes to column 0", pre: inRegion, post: []c06Post{col0, rowSame}},
+	)
+	// the same functions with the cursor OUTSIDE the scroll region (a region that does not span the screen): the
+	// margins stop a cursor that is inside the region only; outside it the screen edges do
+	below := []c05Lin{c05L(c05Bot, 1, c05Row, -1, 1), c05L(c05Row, 1, "ROWS", -1, 1), c05L(c05Col, 1, "COLS", -1, 1)}
+	above := []c05Lin{c05L(c05Row, 1, c05Top_, -1, 1), c05L(c05Row, -1), c05L(c05Col, 1, "COLS", -1, 1)}
+	cs = append(cs,
+		c06Case{rule: "C06.d", table: "csi", key: "B", name: "CUD 2 below the region moves down two rows", ps: 2, pre: with(below, c05L(c05Row, 1, "ROWS", -1, 3)), post: []c06Post{c06Eq("row == row0+2", c05Row, 1, g0Row, -1, -2), colSame}},
+		c06Case{rule: "C06.d", table: "csi", key: "B", name: "CUD on the last row below the region keeps the row", ps: 1, pre: with(below, c05L("ROWS", 1, c05Row, -1, -1)), post: []c06Post{rowSame, colSame}},
+		c06Case{rule: "C06.d", table: "csi", key: "B", name: "CUD 2 above the region moves down two rows", ps: 2, pre: with(above, c05L(c05Row, 1, c05Bot, -1, 2)), post: []c06Post{c06Eq("row == row0+2", c05Row, 1, g0Row, -1, -2), colSame}},
+		c06Case{rule: "C06.d", table: "csi", key: "A", name: "CUU 2 above the region moves up two rows", ps: 2, pre: with(above, c05L(c05Row, -1, 2)), post: []c06Post{c06Eq("row == row0-2", c05Row, 1, g0Row, -1, 2), colSame}},
+		c06Case{rule: "C06.d", table: "csi", key: "A", name: "CUU on the first row above the region keeps the row", ps: 1, pre: with(above, c05L(c05Row, 1)), post: []c06Post{rowSame, colSame}},
+		c06Case{rule: "C06.d", table: "csi", key: "A", name: "CUU 2 below the region moves up two rows", ps: 2, pre: with(below, c05L(c05Top_, 1, c05Row, -1, 2)), post: []c06Post{c06Eq("row == row0-2", c05Row, 1, g0Row, -1, 2), colSame}},
+		c06Case{rule: "C06.d", table: "esc", key: "D", name: "IND below the region moves down one row", pre: with(below, c05L(c05Row, 1, "ROWS", -1, 2)), post: []c06Post{c06Eq("row == row0+1", c05Row, 1, g0Row, -1, -1), colSame}},
+		c06Case{rule: "C06.d", table: "esc", key: "D", name: "IND on the last row below the region keeps the row", pre: with(below, c05L("ROWS", 1, c05Row, -1, -1)), post: []c06Post{rowSame, colSame}},
+		c06Case{rule: "C06.d", table: "esc", key: "E", name: "NEL below the region goes to column 0 of the next row", pre: with(below, c05L(c05Row, 1, "ROWS", -1, 2)), post: []c06Post{c06Eq("row == row0+1", c05Row, 1, g0Row, -1, -1), col0}},
+		c06Case{rule: "C06.d", table: "c0", key: "10", name: "LF below the region moves down one row", pre: with(below, c05L(c05Row, 1, "ROWS", -1, 2)), post: []c06Post{c06Eq("row == row0+1", c05Row, 1, g0Row, -1, -1)}},
+		c06Case{rule: "C06.d", table: "c0", key: "10", name: "LF on the last row below the region keeps the row", pre: with(below, c05L("ROWS", 1, c05Row, -1, -1)), post: []c06Post{rowSame}},
+		c06Case{rule: "C06.d", table: "esc", key: "M", name: "RI above the region moves up one row", pre: with(above, c05L(c05Row, -1, 1)), post: []c06Post{c06Eq("row == row0-1", c05Row, 1, g0Row, -1, 1), colSame}},
+		c06Case{rule: "C06.d", table: "esc", key: "M", name: "RI on the first row above the region keeps the row", pre: with(above, c05L(c05Row, 1)), post: []c06Post{rowSame, colSame}},
+		c06Case{rule: "C06.d", table: "esc", key: "M", name: "RI below the region moves up one row", pre: with(below, c05L(c05Top_, 1, c05Row, -1, 1)), post: []c06Post{c06Eq("row == row0-1", c05Row, 1, g0Row, -1, 1), colSame}},
 	)
 	// DECRC puts the cursor where DECSC saved it (the saved position of either screen is seeded with the same in-range ghost)
 	cs = append(cs, c06Case{rule: "C06.d", table: "esc", key: "8", name: "DECRC restores the saved position", saved: true, pre: inRegion,
